@@ -152,12 +152,20 @@ func c15Prov(c *core.Ctx) {
 	}
 	c.Decide(okRet && cases == 1, rule, "aggoracle.(*AggOracle).getLastFinalizedGER#result", fn.Pos(), "on success: (0, info.GlobalExitRoot of that query, nil) — the next tick samples finality again")
 	// retry target on syncer error is the sampled block
-	okErr := false
+	okErr, nErr := true, 0
 	for _, rc := range core.ReturnCases(fn) {
 		if len(rc.Values) == 3 && sx.Of(rc.Values[2]).String() == sx.Of(core.ExtractOf(info, 1)).String() {
-			okErr = rc.Values[0] == n
+			nErr++
+			same := rc.Values[0] == n
+			for _, lf := range phiLeaves(n) { // the return may have been split per operand of the merged block number
+				if lf.val == rc.Values[0] {
+					same = true
+				}
+			}
+			okErr = okErr && same
 		}
 	}
+	okErr = okErr && nErr > 0
 	c.Decide(okErr, rule, "aggoracle.(*AggOracle).getLastFinalizedGER#retry-target", fn.Pos(), "when the syncer is behind, the block that was sampled is returned as retry target")
 	// blockFinality is written only by New, from the configured finality type
 	f := c.Field("aggoracle", "AggOracle", "blockFinality")
@@ -232,6 +240,63 @@ func c15Prov(c *core.Ctx) {
 }
 
 // c15Until: "latest info until block n" is what its name says, for the n that was asked.
+// c15SingleFlight: one oracle step at a time. The check "is it injected already?" and the injection are only
+// meaningful together when steps do not overlap: a step started in a goroutine per tick re-injects the same root.
+func c15SingleFlight(c *core.Ctx) {
+	const rule = "C15-gate"
+	reaches := map[*ssa.Function]bool{}
+	var mark func(fn *ssa.Function, d int) bool
+	mark = func(fn *ssa.Function, d int) bool {
+		if fn == nil || d > 4 {
+			return false
+		}
+		if v, ok := reaches[fn]; ok {
+			return v
+		}
+		reaches[fn] = false
+		hit := false
+		core.Instrs(fn, func(i ssa.Instruction) {
+			if cc := core.AsCall(i); cc != nil {
+				if cc.IsInvoke() && cc.Method.Name() == "InjectGER" {
+					hit = true
+				}
+				if g := cc.StaticCallee(); g != nil && g.Pkg == fn.Pkg && mark(g, d+1) {
+					hit = true
+				}
+			}
+			if mc, ok := i.(*ssa.MakeClosure); ok && mark(mc.Fn.(*ssa.Function), d+1) {
+				hit = true
+			}
+		})
+		reaches[fn] = hit
+		return hit
+	}
+	var bad []string
+	n := 0
+	for _, fn := range c.AllFuncs() {
+		if fn.Pkg == nil || fn.Pkg.Pkg.Path() != core.P("aggoracle") {
+			continue
+		}
+		core.Instrs(fn, func(i ssa.Instruction) {
+			g, ok := i.(*ssa.Go)
+			if !ok {
+				return
+			}
+			n++
+			var target *ssa.Function
+			if mc, isMC := g.Call.Value.(*ssa.MakeClosure); isMC {
+				target = mc.Fn.(*ssa.Function)
+			} else {
+				target = g.Call.StaticCallee()
+			}
+			if target != nil && mark(target, 0) {
+				bad = append(bad, core.ShortFn(fn))
+			}
+		})
+	}
+	c.Decide(len(bad) == 0, rule, "aggoracle#one-step-at-a-time", 0, fmt.Sprintf("no goroutine started in the oracle package reaches InjectGER (%d go statements; offending: %v)", n, bad))
+}
+
 func c15Until(c *core.Ctx) {
 	const rule = "C15-until"
 	checkOrdered(c, rule, []orderedSpec{
@@ -280,7 +345,7 @@ func init() {
 		Level: "other",
 		Explanation: "Decides the structural necessary conditions of 'the oracle injects only finalized, current, not-yet-present roots': C15-gate — the only InjectGER call through the ChainSender interface is in processLatestGER, reachable only after IsGERInjected of the same value returned (false, nil), and that value is the root returned by a successful getLastFinalizedGER; C15-prov — that root is GetLatestInfoUntilBlock(ctx, n).GlobalExitRoot of a successful query, n is the number of the header sampled with the configured finality (HeaderByNumber(ctx, a.blockFinality), success edge) or the non-zero retry target, blockFinality is written only in New from ToBlockNum(), and the retry target is written only with getLastFinalizedGER's first result; C15-resample — the success path returns target 0 so the next tick samples finality again (keeps up with newer finalized roots), while the syncer-behind path returns the sampled block. the retry target is stored only on the success edge of the lookup or for ErrBlockNotProcessed, so it cannot stick on ErrNotFound / other errors; C15-until — the store's GetLatestInfoUntilBlock(n) selects the last leaf in chain order with block_num <= $1 bound to n, only after the last processed block reached n, and the façade passes n through. Not decided: liveness under arbitrary relative speeds.",
 		Rules: []Rule{
-			{ID: "C15-gate", Floor: 2, Run: c15Gate, Text: "[DOM]+[WHO] inject only after IsGERInjected(g) == (false, nil); g from a successful lookup"},
+			{ID: "C15-gate", Floor: 3, Run: func(c *core.Ctx) { c15Gate(c); c15SingleFlight(c) }, Text: "[DOM]+[WHO] inject only after IsGERInjected(g) == (false, nil); g from a successful lookup"},
 			{ID: "C15-prov", Floor: 7, Run: c15Prov, Text: "[PROV]+[DOM] finality sample, queried block, result and retry target (sticks only while the syncer is behind), finality field writers"},
 			{ID: "C15-until", Floor: 3, Run: c15Until, Text: "SQL+[PROV]: GetLatestInfoUntilBlock(n) = last leaf with block_num <= n, bound to n, only once block n was processed; façade pass-through"},
 		},
